@@ -18,13 +18,14 @@ import (
 // index adaptors
 
 type vConcIdx struct {
-	canon  func() string
-	name   string
-	add    func(id uint32, content int) error
-	remove func(id uint32) error
-	search func(restrict []uint32) ([]uint32, error) // a query that matches every document
-	flush  func() error
-	write  func() error
+	canon   func() string
+	name    string
+	add     func(id uint32, content int) error
+	remove  func(id uint32) error
+	search  func(restrict []uint32) ([]uint32, error) // a query that matches every document
+	search2 func() ([]uint32, error)                  // the same with two queries / a query and a node id (nil if n/a)
+	flush   func() error
+	write   func() error
 }
 
 var vConcVecs = [][]float32{{1, 0}, {0, 1}, {3, 4}, {2, 2}}
@@ -51,6 +52,10 @@ func vConcVec(cfg vVecCfg) func() *vConcIdx {
 			},
 			flush: func() error { return idx.Flush() },
 			write: func() error { _, err := idx.WriteTo(io.Discard); return err },
+			search2: func() ([]uint32, error) {
+				res, err := idx.NewSearch().WithQuery([]float32{1, 1}, []float32{0, 2}).WithK(-1).WithNProbes(-1).WithEfSearch(64).Execute()
+				return vResIDs(res), err
+			},
 		}
 	}
 }
@@ -81,6 +86,14 @@ func vConcKinds() map[string]func() *vConcIdx {
 				},
 				flush: func() error { return idx.Flush() },
 				write: func() error { _, err := idx.WriteTo(io.Discard); return err },
+				search2: func() ([]uint32, error) {
+					res, err := idx.NewSearch().WithQuery("alpha", "beta gamma").WithK(-1).Execute()
+					ids := make([]uint32, len(res))
+					for i, x := range res {
+						ids[i] = x.Id
+					}
+					return ids, err
+				},
 			}
 		},
 		"metadata": func() *vConcIdx {
@@ -250,6 +263,17 @@ func init() {
 				x.Spawn("C", func() { x.Op("C", "Add(3)", func() ([]uint32, error) { return nil, ix.add(3, 2) }) })
 			}, []uint32{1}, vNoErr,
 			func(x *vSchedExec, ix *vConcIdx) { srch(x, ix, "main", nil) }))
+		// S11: a search with SEVERAL queries || Add || Remove (per-query locking)
+		if probe := mk(); probe.search2 != nil {
+			vScenarios = append(vScenarios, vIdxScenario(k, "S11-multiquery-add-remove", mk,
+				func(ix *vConcIdx) { ix.add(2, 1); ix.add(3, 2) },
+				func(x *vSchedExec, ix *vConcIdx) {
+					x.Spawn("A", func() { x.Op("A", "Search2", func() ([]uint32, error) { return ix.search2() }) })
+					x.Spawn("B", func() { x.Op("B", "Add(1)", func() ([]uint32, error) { return nil, ix.add(1, 0) }) })
+					x.Spawn("C", func() { x.Op("C", "Remove(2)", func() ([]uint32, error) { return nil, ix.remove(2) }) })
+				}, []uint32{2, 3}, vNoErr,
+				func(x *vSchedExec, ix *vConcIdx) { srch(x, ix, "main", nil) }))
+		}
 		// S5: two restricted searches (pooled filters / heaps) + an add
 		if k != "metadata" && k != "hybrid" {
 			vScenarios = append(vScenarios, &vScenario{Prop: "C11", Name: k + "/S5-restricted-searches",
